@@ -68,8 +68,15 @@ Proof.
   apply not_known_good; [discriminate | exact H].
 Qed.
 
-Lemma emit_literal_string_eq s : emit_literal_string s = QUOTE :: dbl QUOTE s ++ [QUOTE].
-Proof. unfold emit_literal_string, emit_string. rewrite esc_dbl. reflexivity. Qed.
+(* whatever the backslash flag: sqlparser's Display adds the outer quotes to prqlc's prepared text and nothing else *)
+Lemma emit_literal_string_eq bs s : emit_literal_string bs s = QUOTE :: prep_literal bs s ++ [QUOTE].
+Proof. unfold emit_literal_string, emit_string, prep_literal. rewrite esc_dbl. reflexivity. Qed.
+
+Lemma dbl_absent q : forall s, existsb (N.eqb q) s = false -> dbl q s = s.
+Proof.
+  induction s as [|c r IH]; intro H; [reflexivity|].
+  cbn [existsb] in H. apply orb_false_iff in H as [H1 H2]. cbn [dbl]. rewrite N.eqb_sym, H1, (IH H2). reflexivity.
+Qed.
 
 Lemma emit_quoted_not_known q s : q <> BSLASH -> esc_known q s = false -> emit_quoted q s = q :: dbl q s ++ [q].
 Proof.
@@ -177,38 +184,121 @@ Proof.
   cbn [app] in E. rewrite app_nil_r in E. exact E.
 Qed.
 
-(* what prqlc emits NOW (quotes doubled first) round-trips every string that is free of backslashes for the
-   dialect -- every string at all on the standard family -- in every context *)
-Theorem literal_string_in_context d s pre suf :
-  bs_free d s = true -> closed_prefix d pre = true -> starts_with 39 suf = false ->
-  sql_lex d (pre ++ emit_literal_string s ++ suf) = sql_lex d pre ++ TString s :: sql_lex d suf.
-Proof.
-  intros Hb Hp Hs. rewrite emit_literal_string_eq.
-  rewrite (sql_lex_closed_prefix d pre Hp). unfold sql_lex at 1. rewrite run_app.
-  unfold closed_prefix in Hp. destruct (state_after d L0 pre); try discriminate.
-  f_equal. change ((QUOTE :: dbl QUOTE s ++ [QUOTE]) ++ suf) with (QUOTE :: (dbl QUOTE s ++ [QUOTE]) ++ suf).
-  rewrite <- app_assoc. apply lex_quoted_dbl; assumption.
-Qed.
-
 Lemma bs_free_std s : bs_free std_sql s = true.
 Proof. reflexivity. Qed.
 
 Theorem string_roundtrip_std s : esc_known QUOTE s = false -> sql_lex std_sql (emit_string s) = [TString s].
 Proof. intro H. apply string_roundtrip_ok. unfold str_ok. rewrite H. reflexivity. Qed.
 
-Theorem literal_string_roundtrip d s : bs_free d s = true -> sql_lex d (emit_literal_string s) = [TString s].
+(* ------------------------------------------------------------------ string literals as prqlc emits them NOW *)
+
+(* the reading side of a doubled backslash: one backslash, on every dialect of the backslash family (MySQL included:
+   only \% and \_ keep their backslash there) *)
+Lemma bs_decode_backslash d : bs_decode d 92 = [92].
+Proof. unfold bs_decode. destruct (keep_wild d); reflexivity. Qed.
+
+(* backslash family, backslashes AND quotes doubled: the content is read back character by character *)
+Lemma lex_dbl_bs d : bs_escapes d = true -> forall s acc rest,
+  run d (LStr acc) (dbl QUOTE (dbl BSLASH s) ++ rest) = run d (LStr (rev s ++ acc)) rest.
 Proof.
-  intro H. pose proof (literal_string_in_context d s [] [] H eq_refl eq_refl) as E.
+  intro Hd. unfold QUOTE, BSLASH. induction s as [|c r IH]; intros acc rest; [reflexivity|].
+  cbn [dbl]. destruct (c =? 92) eqn:Eb.
+  - apply N.eqb_eq in Eb. subst c. cbn [dbl]. replace (92 =? 39) with false by reflexivity.
+    cbn [app]. cbn [run step]. replace (92 =? 39) with false by reflexivity.
+    rewrite Hd. replace (92 =? 92) with true by reflexivity. cbn [andb app].
+    cbn [run step]. rewrite bs_decode_backslash. cbn [app].
+    rewrite IH. cbn [rev]. rewrite <- app_assoc. reflexivity.
+  - cbn [dbl]. destruct (c =? 39) eqn:Ec.
+    + apply N.eqb_eq in Ec. subst c. cbn [app]. cbn [run]. rewrite step_LStr_quote. cbn [app].
+      cbn [run]. rewrite step_LStrQ_quote. cbn [app].
+      rewrite IH. cbn [rev]. rewrite <- app_assoc. reflexivity.
+    + cbn [app]. cbn [run step]. rewrite Ec, Eb, andb_false_r. cbn [app].
+      rewrite IH. cbn [rev]. rewrite <- app_assoc. reflexivity.
+Qed.
+
+(* the writer's flag w fits reader d on value s: the flags are equal, or there is no backslash to disagree about *)
+Definition no_backslash (s : str) : bool := negb (existsb (N.eqb BSLASH) s).
+Definition compatible (w : bool) (d : sqld) (s : str) : bool := Bool.eqb w (bs_escapes d) || no_backslash s.
+
+Lemma compatible_same d s : compatible (bs_escapes d) d s = true.
+Proof. unfold compatible. rewrite Bool.eqb_reflx. reflexivity. Qed.
+
+Lemma lex_prep w d s acc rest : compatible w d s = true ->
+  run d (LStr acc) (prep_literal w s ++ rest) = run d (LStr (rev s ++ acc)) rest.
+Proof.
+  unfold compatible, prep_literal. intro H. apply orb_true_iff in H as [H|H].
+  - apply Bool.eqb_prop in H. subst w. destruct (bs_escapes d) eqn:E.
+    + apply lex_dbl_bs. exact E.
+    + apply lex_dbl. unfold bs_free. rewrite E. reflexivity.
+  - unfold no_backslash in H. apply negb_true_iff in H.
+    assert ((if w then dbl BSLASH s else s) = s) as -> by (destruct w; [apply dbl_absent; exact H | reflexivity]).
+    apply lex_dbl. unfold bs_free. rewrite H. apply orb_true_r.
+Qed.
+
+(* prepared text in quotes, read from between two tokens: one string token with that value *)
+Lemma lex_quoted_prep w d s suf : compatible w d s = true -> starts_with 39 suf = false ->
+  run d L0 (QUOTE :: prep_literal w s ++ [QUOTE] ++ suf) = TString s :: run d L0 suf.
+Proof.
+  intros Hc Hs. change (QUOTE :: prep_literal w s ++ [QUOTE] ++ suf) with (39 :: (prep_literal w s ++ 39 :: suf)).
+  cbn [run]. change (step d L0 39) with (step0 39). rewrite step0_quote. cbn [app].
+  rewrite lex_prep by exact Hc. cbn [run]. rewrite step_LStr_quote. cbn [app].
+  rewrite run_LStrQ by exact Hs. rewrite app_nil_r, rev_involutive. reflexivity.
+Qed.
+
+(* GENERAL FORM: writer flag w, reader d, value s compatible -> one string token with value s, in every context *)
+Theorem literal_string_in_context_gen w d s pre suf :
+  compatible w d s = true -> closed_prefix d pre = true -> starts_with 39 suf = false ->
+  sql_lex d (pre ++ emit_literal_string w s ++ suf) = sql_lex d pre ++ TString s :: sql_lex d suf.
+Proof.
+  intros Hc Hp Hs. rewrite emit_literal_string_eq.
+  rewrite (sql_lex_closed_prefix d pre Hp). unfold sql_lex at 1. rewrite run_app.
+  unfold closed_prefix in Hp. destruct (state_after d L0 pre); try discriminate.
+  f_equal. change ((QUOTE :: prep_literal w s ++ [QUOTE]) ++ suf) with (QUOTE :: (prep_literal w s ++ [QUOTE]) ++ suf).
+  rewrite <- app_assoc. apply lex_quoted_prep; assumption.
+Qed.
+
+Theorem literal_string_roundtrip_gen w d s : compatible w d s = true -> sql_lex d (emit_literal_string w s) = [TString s].
+Proof.
+  intro H. pose proof (literal_string_in_context_gen w d s [] [] H eq_refl eq_refl) as E.
   cbn [app] in E. rewrite app_nil_r in E. exact E.
 Qed.
 
-Theorem literal_string_roundtrip_std s : sql_lex std_sql (emit_literal_string s) = [TString s].
-Proof. apply literal_string_roundtrip. reflexivity. Qed.
+(* a string with neither quote nor backslash is compatible with every configuration *)
+Definition plain_chars (s : str) : bool := negb (existsb (fun c => (c =? 39) || (c =? 92)) s).
+Lemma plain_compatible w d s : plain_chars s = true -> compatible w d s = true.
+Proof.
+  intro H. unfold compatible. apply orb_true_iff. right. unfold no_backslash, plain_chars in *.
+  apply negb_true_iff in H. apply negb_true_iff.
+  induction s as [|c r IH]; [reflexivity|]. cbn [existsb] in *. apply orb_false_iff in H as [H1 H2].
+  apply orb_false_iff in H1 as [_ H1]. rewrite N.eqb_sym. change BSLASH with 92. rewrite H1. exact (IH H2).
+Qed.
+
+(* FULL STRENGTH: when the writer doubles backslashes exactly when the reader treats them as escapes, EVERY string
+   comes back as one string token with its value, in every context *)
+Theorem literal_string_in_context d s pre suf :
+  closed_prefix d pre = true -> starts_with 39 suf = false ->
+  sql_lex d (pre ++ emit_literal_string (bs_escapes d) s ++ suf) = sql_lex d pre ++ TString s :: sql_lex d suf.
+Proof. apply literal_string_in_context_gen, compatible_same. Qed.
+
+Theorem literal_string_roundtrip d s : sql_lex d (emit_literal_string (bs_escapes d) s) = [TString s].
+Proof. apply literal_string_roundtrip_gen, compatible_same. Qed.
+
+(* the two classes *)
+Theorem literal_string_roundtrip_std s : sql_lex std_sql (emit_literal_string false s) = [TString s].
+Proof. exact (literal_string_roundtrip std_sql s). Qed.
+
+Theorem literal_string_roundtrip_bs d s : bs_escapes d = true -> sql_lex d (emit_literal_string true s) = [TString s].
+Proof. intro H. pose proof (literal_string_roundtrip d s) as L. rewrite H in L. exact L. Qed.
 
 Theorem literal_string_in_context_std s pre suf :
   closed_prefix std_sql pre = true -> starts_with 39 suf = false ->
-  sql_lex std_sql (pre ++ emit_literal_string s ++ suf) = sql_lex std_sql pre ++ TString s :: sql_lex std_sql suf.
-Proof. apply literal_string_in_context. reflexivity. Qed.
+  sql_lex std_sql (pre ++ emit_literal_string false s ++ suf) = sql_lex std_sql pre ++ TString s :: sql_lex std_sql suf.
+Proof. exact (literal_string_in_context std_sql s pre suf). Qed.
+
+Theorem literal_string_in_context_bs d s pre suf : bs_escapes d = true ->
+  closed_prefix d pre = true -> starts_with 39 suf = false ->
+  sql_lex d (pre ++ emit_literal_string true s ++ suf) = sql_lex d pre ++ TString s :: sql_lex d suf.
+Proof. intro H. pose proof (literal_string_in_context d s pre suf) as L. rewrite H in L. exact L. Qed.
 
 (* strings without quote and backslash are fine everywhere (dates, times, numbers in quotes) *)
 Lemma safe_chars_ok d s : forallb (fun c => negb (c =? 39) && negb (c =? 92)) s = true -> str_ok d s = true.
